@@ -19,6 +19,7 @@ pub struct B2Gen<'a> {
     states: Vec<(i64, S)>,
     pub ops_used: Vec<(String, S, bool)>,
     name_ctr: u32,
+    issued: Vec<String>,
 }
 
 pub const BIN_SAME: &[&str] = &["and", "nand", "nor", "or", "xnor", "xor", "sll", "sra", "srl", "add", "mul", "sdiv", "udiv", "smod", "srem", "urem", "sub"];
@@ -28,7 +29,7 @@ pub const UNARY: &[&str] = &["not", "neg", "redand", "redor", "redxor"];
 impl<'a> B2Gen<'a> {
     pub fn new(rng: &'a mut Rng) -> Self {
         let start = if rng.chance(1, 4) { rng.range(2, 50) as i64 } else { 1 };
-        B2Gen { rng, lines: vec![], next_id: start, sort_ids: Default::default(), nodes: Default::default(), states: vec![], ops_used: vec![], name_ctr: 0 }
+        B2Gen { rng, lines: vec![], next_id: start, sort_ids: Default::default(), nodes: Default::default(), states: vec![], ops_used: vec![], name_ctr: 0, issued: vec![] }
     }
 
     fn id(&mut self) -> i64 {
@@ -62,15 +63,28 @@ impl<'a> B2Gen<'a> {
 
     fn name(&mut self, pct: u64) -> String {
         if self.rng.below(100) < pct {
+            // one name in six repeats an earlier one, as it is or with `$` and `_` exchanged (yosys writes `$`, the
+            // reader turns it into `_`): the reader has to keep such signals apart
+            if !self.issued.is_empty() && self.rng.chance(1, 6) {
+                let prev = self.rng.pick(&self.issued).clone();
+                return match self.rng.below(3) {
+                    0 => format!(" {prev}"),
+                    1 => format!(" {}", prev.replace('$', "_")),
+                    _ => format!(" {}", prev.replacen('_', "$", 1)),
+                };
+            }
             self.name_ctr += 1;
             let n = self.name_ctr;
-            match self.rng.below(5) {
-                0 => format!(" sig{n}"),
-                1 => format!(" top.u{n}.q"),
-                2 => format!(" $flat_{n}"),
-                3 => format!(" n{n} ; a comment"),
-                _ => format!(" x_{n}"),
-            }
+            let (nm, comment) = match self.rng.below(6) {
+                0 => (format!("sig{n}"), ""),
+                1 => (format!("top.u{n}.q"), ""),
+                2 => (format!("$flat_{n}"), ""),
+                3 => (format!("n{n}"), " ; a comment"),
+                4 => (format!("top.r{n}$q"), ""),
+                _ => (format!("x_{n}"), ""),
+            };
+            self.issued.push(nm.clone());
+            format!(" {nm}{comment}")
         } else {
             String::new()
         }
@@ -280,6 +294,18 @@ impl<'a> B2Gen<'a> {
             self.op_node();
             if self.rng.chance(1, 25) {
                 self.lines.push(String::new());
+            }
+        }
+        // the alias idiom of yosys: a named `uext <sort> <state> 0` line that stands for the state itself
+        for (st, s) in self.states.clone() {
+            if let S::Bv(_) = s {
+                if self.rng.chance(1, 3) {
+                    let sid = self.sort(s);
+                    let i = self.id();
+                    let nm = self.name(100);
+                    self.lines.push(format!("{i} uext {sid} {st} 0{nm}"));
+                    self.add_node(s, i);
+                }
             }
         }
         // init / next
